@@ -84,6 +84,11 @@ type Keyed struct {
 	Pay  string  `parquet:"pay"`
 	Tags []int32 `parquet:"tags"`
 	Sum  uint64  `parquet:"sum"`
+	G    *KeyedG `parquet:"g"` // an optional leaf inside an optional group: nulls at two definition levels
+}
+
+type KeyedG struct {
+	V *int64 `parquet:"v"`
 }
 
 func ptr[T any](v T) *T { return &v }
